@@ -58,6 +58,9 @@ def universe():
         (L('v/'), W('x'), L('/1')), (W('x', 'int'), L('0')),
         # hand-written re filters whose text equals the mask of a built-in filter
         (L('a/'), W('x', 're', r'-?\d+')), (L('a/'), W('x', 're', r'-?\d+(\.\d+)?')),
+        # literals containing a percent sign (a discount, a percent-encoded word, a doubled sign)
+        (L('sale/50%/'), W('code')), (L('q/'), W('n', 'int'), L('%/off')), (L('caf%C3%A9/'), W('t', 'int')),
+        (L('p/100%%/'), W('x'), L('/'), W('y', 'path')), (L('%s/'), W('x'), L('/%d/'), W(None, 'int')),
     ]
     return u
 
@@ -142,6 +145,7 @@ def shards(tier, seed):
     out += [('pair', i, tier) for i in range(len(PAIRS))]
     out += [('hooked', i, tier) for i in range(0, len(u), 8)]
     out += [('order', i, tier) for i in range(len(SAME_MASK))]
+    out += [('refused', i, tier) for i, r in enumerate(u) if any(a[0] == 'W' and a[1] is None for a in r) or i % 6 == 0]
     out.append(('extra', seed % 4, tier))
     return out
 
@@ -151,7 +155,7 @@ def bounds(tier, seed):
     return {'rules': [rr.default_text(r) for r in u], 'flavours': 'all', 'numeric_texts': NUM_VALUES}
 
 
-FLOORS = {'shared_route_roundtrips': 2000, 'pair_roundtrips': 300, 'pair_backtracks': 20, 'hooked_roundtrips': 1000, 'roundtrips': 3000, 'with_conversion': 300, 'with_anonymous': 100, 'adjacent_wildcards': 100, 'path_filter': 100}
+FLOORS = {'after_refused_parse': 500, 'shared_route_roundtrips': 2000, 'pair_roundtrips': 300, 'pair_backtracks': 20, 'hooked_roundtrips': 1000, 'roundtrips': 3000, 'with_conversion': 300, 'with_anonymous': 100, 'adjacent_wildcards': 100, 'path_filter': 100}
 
 
 def roundtrip(rmod, rule, text, path, hook=None):
@@ -168,6 +172,14 @@ def roundtrip(rmod, rule, text, path, hook=None):
     try:
         if hook and hook[1] == 'before':
             router.add_hook(hook[0], lambda *a, **kw: None)
+        if hook and hook[1].startswith('refused-'):
+            # a malformed rule text is refused first (by add / remove / add_hook / a lookup by rule): that must leave nothing behind
+            try:
+                {'refused-add': lambda: router.add(hook[0], 'GET', h), 'refused-remove': lambda: router.remove(hook[0]),
+                 'refused-hook': lambda: router.add_hook(hook[0], lambda *a, **kw: None), 'refused-lookup': lambda: router[{hook[0]}]}[hook[1]]()
+                return 'malformed-accepted', f'malformed rule text {hook[0]!r} was accepted by {hook[1][8:]}'
+            except Exception:   # noqa
+                pass
         route = router.add(text, 'GET', h)
         if hook and hook[1] in ('after', 'after-then-removed'):
             router.add_hook(hook[0], lambda *a, **kw: None)
@@ -336,6 +348,35 @@ def check_hooked(res, rmod, rule):
                                        sig='hooked:' + r[0])
 
 
+MALFORMED = ['/x/{:re(a.)}/{', '/{:int}/{bad', '/a/<:int>/<', '/a/{:int}/{x:re(}', '/a/<:re:a+>/<b', '/m/{:re(a.)}/{name}/{:re(b.)}/{x:int(}', '/a/{n:int}/{']
+REFUSERS = ['refused-add', 'refused-remove', 'refused-hook', 'refused-lookup']
+
+
+def check_refused(res, rmod, rule):
+    """the rule is registered right after a malformed rule text was refused (fresh import per combination: parsing state is process-wide)"""
+    c = res['counters']
+    text = rr.default_text(rule)
+    for bad in MALFORMED:
+        for how in REFUSERS:
+            sut.load(fresh=True)
+            rm = sut.sub('router.radirouter')
+            res['states'] += 1
+            for p in paths_for(rule)[:12]:
+                r = roundtrip(rm, rule, text, p, hook=(bad, how))
+                if r is not None and r[0] == 'nomatch':
+                    continue
+                res['transitions'] += 1
+                c['after_refused_parse'] += 1
+                res['nontrivial'] += 1
+                res['outcomes'].add('after a refused rule: ' + ('ok' if r is None else r[0]))
+                if r is not None and r[0] != 'malformed-accepted':
+                    core.add_violation(res, {'ast': [list(a) for a in rule], 'text': text, 'path': p, 'hook': [bad, how], 'fresh': True},
+                                       f'after the malformed rule text {bad!r} was refused by {how[8:]}(), rule {text!r}, parameters from path {p!r}: {r[1]}',
+                                       sig='after-refused:' + r[0])
+                    break
+    sut.load(fresh=True)
+
+
 def check_rule(res, rmod, rule):
     c = res['counters']
     texts = rr.renderings(rule)
@@ -404,6 +445,10 @@ def work(spec):
             check_hooked(res, rmod, rule)
             check_shared(res, rmod, rule)
         core.add_sample(res, {'hooked_rules': [rr.default_text(r) for r in u[i:i + 8]]})
+    elif kind == 'refused':
+        rule = universe()[i]
+        check_refused(res, rmod, rule)
+        core.add_sample(res, {'rule_after_refused_rule_texts': rr.default_text(rule), 'malformed': MALFORMED, 'refused_by': REFUSERS})
     elif kind == 'rule':
         rule = universe()[i]
         check_rule(res, rmod, rule)
@@ -418,7 +463,7 @@ def work(spec):
 
 
 def replay(case):
-    sut.load(fresh=bool(case.get('after_rules')))
+    sut.load(fresh=bool(case.get('after_rules')) or bool(case.get('fresh')))
     rmod = sut.sub('router.radirouter')
     for t in case.get('after_rules') or []:
         rmod.Route(t)
@@ -454,6 +499,11 @@ def replay(case):
         return vs[0]['what'] if vs else None
     rule = tuple(tuple(a) for a in case['ast'])
     r = roundtrip(rmod, rule, case['text'], case['path'], hook=tuple(case['hook']) if case.get('hook') else None)
+    if case.get('hook') and case['hook'][1].startswith('refused-'):
+        if r is None or r[0] in ('nomatch', 'malformed-accepted'):
+            return None
+        return (f'after the malformed rule text {case["hook"][0]!r} was refused by {case["hook"][1][8:]}(), rule {case["text"]!r} is registered and '
+                f'matches path {case["path"]!r}; {r[1]}')
     if case.get('hook') and r is not None and r[0] != 'nomatch':
         return f'rule {case["text"]!r} with a route hook on {case["hook"][0]!r} installed {case["hook"][1]} it matches path {case["path"]!r}; {r[1]}'
     if r is None or r[0] == 'nomatch':
@@ -461,4 +511,5 @@ def replay(case):
     pre = f'after the rules {case["after_rules"]} were parsed in this process: ' if case.get('after_rules') else ''
     return f'{pre}rule {case["text"]!r} matches path {case["path"]!r}; {r[1]}'
 
+MANIFEST['text'] += " Literals containing percent signs and rules registered right after a malformed rule text was refused (by add / remove / add_hook / lookup, fresh import each) are layers of the universe."
 MANIFEST['text'] += " Hooks installed and removed again, and rule pairs that split each other's tail node, are included."
